@@ -302,7 +302,7 @@ def _worker_init():
     sys.stderr = open(os.devnull, "w")
     signal.signal(signal.SIGALRM, _alarm)
     import logging
-    logging.disable(logging.CRITICAL)
+    logging.disable(logging.INFO)       # warnings and errors of the code under test stay live (to /dev/null)
 
 
 def _run_case(args):
